@@ -1,4 +1,5 @@
 pub mod common;
+pub mod c01;
 pub mod c02;
 pub mod c03;
 pub mod c04;
@@ -11,11 +12,12 @@ pub mod c15;
 use crate::engine::Property;
 
 pub fn all_ids() -> Vec<&'static str> {
-    vec!["C02", "C03", "C04", "C10", "C11", "C12", "C13", "C15"]
+    vec!["C01", "C02", "C03", "C04", "C10", "C11", "C12", "C13", "C15"]
 }
 
 pub fn get(id: &str) -> Option<Property> {
     match id {
+        "C01" => Some(c01::property()),
         "C02" => Some(c02::property()),
         "C03" => Some(c03::property()),
         "C04" => Some(c04::property()),
